@@ -516,7 +516,8 @@ def r9(prog, run):
         raise AnalysisBroken('C09.R9: %s not found' % UNACK)
     run.instance(rid)
     t = (fl[0].get('t') or '').replace('const ', '')
-    if t.startswith(('QMap<', 'std::map<', 'QMultiMap<', 'std::multimap<')):
+    tc = fl[0].get('tc') or ''          # the canonical class behind an alias (using UnackedStanzas = QMap<...>)
+    if t.startswith(('QMap<', 'std::map<', 'QMultiMap<', 'std::multimap<')) or tc in ('record:QMap', 'record:std::map', 'record:QMultiMap', 'record:std::multimap'):
         run.ok(rid, 'src/base/QXmppStreamManagement_p.h', '%s is %s' % (fl[0]['name'], t.split('<')[0]))
     else:
         run.violation(rid, 'StreamAckManager::%s#unordered' % fl[0]['name'], 'src/base/QXmppStreamManagement_p.h:%s' % fl[0].get('line', ''),
